@@ -17,7 +17,7 @@ else
 fi
 for P in "$@"; do
   echo "=== $P (tier ${VERIF_TIER:-quick})"
-  VERIF_REPO=$R timeout 3000 /verif/check "$P" --tier "${VERIF_TIER:-quick}" 2>&1 | grep -a "VIOLATION\|KNOWN-FINDING\|obligations=" | cut -c1-300 | awk '/^VIOLATION/ {n++; if (n>3) next} {print}'
+  VERIF_EVIDENCE_DIR=/tmp/seed_evidence VERIF_REPO=$R timeout 3000 /verif/check "$P" --tier "${VERIF_TIER:-quick}" 2>&1 | grep -a "VIOLATION\|KNOWN-FINDING\|obligations=" | cut -c1-300 | awk '/^VIOLATION/ {n++; if (n>3) next} {print}'
 done
 if [ $INREPO = 1 ]; then git -C /repo checkout -- .; git -C /repo status --short | head -3
 else git -C /repo worktree remove --force "$R"; fi
